@@ -686,6 +686,50 @@ impl MemBrokerService {
     }
 }
 
+/// Verification entry points: the same storage calls the production paths make,
+/// without the TCP polling of server proxies.
+#[cfg(feature = "verif")]
+impl MemBrokerService {
+    pub async fn verif_recover_epoch(&self, max_proxy_epoch: u64) -> Result<(), MetaStoreError> {
+        self.storage.recover_epoch(max_proxy_epoch + 1).await
+    }
+
+    // Returns (is_scale_out, proxies of the cluster, epoch they need to reach).
+    pub async fn verif_auto_change_node_number(
+        &self,
+        cluster_name: String,
+        new_node_num: usize,
+    ) -> Result<(bool, Vec<String>, u64), MetaStoreError> {
+        let _guard = self
+            .scale_lock
+            .lock()
+            .ok_or(MetaStoreError::NodeNumberChanging)?;
+        let (scale_op, proxy_addresses, cluster_epoch) = self
+            .storage
+            .auto_change_node_number(cluster_name, new_node_num)
+            .await?;
+        Ok((
+            matches!(scale_op, ScaleOp::ScaleOut),
+            proxy_addresses,
+            cluster_epoch,
+        ))
+    }
+
+    pub async fn verif_auto_scale_out_node_number(
+        &self,
+        cluster_name: String,
+        new_node_num: usize,
+    ) -> Result<(), MetaStoreError> {
+        let _guard = self
+            .scale_lock
+            .lock()
+            .ok_or(MetaStoreError::NodeNumberChanging)?;
+        self.storage
+            .auto_scale_out_node_number(cluster_name, new_node_num)
+            .await
+    }
+}
+
 type ServiceState = Arc<MemBrokerService>;
 
 fn get_version() -> &'static str {
